@@ -51,7 +51,7 @@ P3 == <<"a", "b", "c">>
 F12All == {NoImp, [form |-> "glob", names |-> <<>>, alias |-> ""], [form |-> "as", names |-> <<>>, alias |-> "q"]}
 ImpLayouts ==
   IF Tier = "thorough"
-  THEN ImpBox(P2, SubSeqsOf(P2), SubSeqsOf(P2), SubSeqsOf(P2), Forms(P2, {"p", "a"}), Forms(P2, {"p", "q"}),
+  THEN ImpBox(P2, SubSeqsOf(P2), SubSeqsOf(P2), SubSeqsOf(P2) \ {<<>>}, Forms(P2, {"p", "a"}), Forms(P2, {"p", "q"}),
               F12All, {FALSE}, {FALSE})
        \cup ImpBox(P2, {<<"a">>}, {<<"a", "b">>}, {<<"b">>}, Forms(P2, {"p", "a"}), Forms(P2, {"p", "q"}),
                    {[form |-> "glob", names |-> <<>>, alias |-> ""]}, {TRUE}, {TRUE})
@@ -98,7 +98,7 @@ ScopeBox(tS, k1S, b1S, k2S, b2S, lS, pmS) ==
 N3 == {"", "a", "b", "c"}
 ScopeLayouts ==
   IF Tier = "thorough"
-  THEN ScopeBox(N3, ScopeKinds, N3, ScopeKinds, N3, N3, {"k"})
+  THEN ScopeBox(N3, ScopeKinds, N3, ScopeKinds, N3, {"", "a", "c"}, {"k"})
        \cup ScopeBox(N3, {"block"}, N3, {"block"}, {""}, {""}, {"a", "b", "c"})
   ELSE LET r == Rot(P3)
        IN ScopeBox({"", r[1]}, ScopeKinds, {"", r[1], r[3]}, ScopeKinds, {"", r[1], r[2]}, {"", r[3]}, {"k"})
@@ -127,7 +127,7 @@ Mode(prune, safe) == IF prune THEN (IF safe THEN "safe" ELSE "pruned") ELSE (IF 
 
 MkCase(l, v, variant) ==
   [id |-> IdOf(l) \o "/" \o variant, layout |-> l, variant |-> variant, files |-> v.files, diags |-> TRUE,
-   expect |-> v.expect, ignore |-> v.ignore, tags |-> v.tags,
+   mode |-> v.mode, expect |-> v.expect, expect_diags |-> v.expect_diags, ignore |-> v.ignore, tags |-> v.tags,
    msg_unresolved |-> MsgUnresolved, clash_suffix |-> ClashSuffix,
    nclash |-> v.nclash, nunres |-> v.nunres, ntaint |-> v.ntaint, nlines |-> v.nlines]
   @@ (IF v.ntaint > 0 THEN [key |-> ForLeakKey] ELSE <<>>)
